@@ -393,6 +393,21 @@ mk B34; d=$D
 edit "$d/graph/graphalg/dom.go" 's.replace("\t\t\t\t\tif rdf == b {", "\t\t\t\t\tif rdf == runner {")'
 expect B34 "$d" C19 tie_failed tie_DomFrontier
 
+echo "== H20 harmless: the InvCDF closure tests its guards and the bracket loop condition in the other order"
+mk H20; d=$D
+edit "$d/stats/dist.go" 's.replace("for hiY < y && hiX != inf {", "for hiX != inf && hiY < y {").replace("if y < 0 || y > 1 {", "if y > 1 || y < 0 {")'
+expect H20 "$d" C07 ok
+
+echo "== B35 breaking: the bracket expansion triples its step"
+mk B35; d=$D
+edit "$d/stats/dist.go" 's.replace("\t\t\t\thiY = dist.CDF(hiX)\n\t\t\t\txdelta *= 2", "\t\t\t\thiY = dist.CDF(hiX)\n\t\t\t\txdelta *= 3")'
+expect B35 "$d" C07 tie_failed tie_InvCDF_bracket
+
+echo "== B36 breaking: InvCDF(0) of a distribution with finite support returns 0 instead of the lower bound"
+mk B36; d=$D
+edit "$d/stats/dist.go" 's.replace("\t\t\tif dist.CDF(l) == 0 {\n\t\t\t\t// Finite support\n\t\t\t\treturn l", "\t\t\tif dist.CDF(l) == 0 {\n\t\t\t\t// Finite support\n\t\t\t\treturn 0")'
+expect B36 "$d" C07 tie_failed tie_InvCDF_special
+
 if [ $FULL = 1 ]; then
   echo "== full check on B1: both ties report (correspondence finds a failing input)"
   out=$(VERIF_REPO="$B1" bin/check C13 quick 2>&1); rc=$?
